@@ -208,7 +208,7 @@ def run(ctx):
         cand = []
         for e in I.events:
             # the quantity is defined by its USE: the size argument of the file reads of this function
-            if e.kind == 'call' and e.data.get('name') == '.read' and e.func.short == fi.short and not e.loops:
+            if e.kind == 'call' and e.data.get('name') == '.read' and e.owner == fi.short and not e.loops:
                 for a in e.data['args'][1:]:
                     v = Term({m: c for m, c in a.p.items() if 'BLOCSIZE' not in T._mkey(m)})
                     if len_atom(v) and not v.is_zero():
@@ -254,7 +254,7 @@ def run(ctx):
     r, Ir = ctx.run(rec, no_inline=RECORD_NO_INLINE, sticky_attrs=('num_blocks',))
 
     def first(name):
-        es = [e for e in Ir.events if e.kind == 'call' and e.data.get('name') == B + '.' + name and e.func.short == rec.short]
+        es = [e for e in Ir.events if e.kind == 'call' and e.data.get('name') == B + '.' + name and e.owner == rec.short]
         return es[0] if es else None
     tpl, inp, pop, mkh = first('_header_add_from_template'), first('_header_add_from_input_header'), \
         first('_header_populate_configuration'), first('_make_header')
@@ -269,7 +269,7 @@ def run(ctx):
            {'arg': pretty(hd_arg)[:200] if hd_arg is not None else None}, node=mkh.node)
     # one header and one data block per iteration of the innermost loop
     dat = [e for e in Ir.events if e.kind == 'call' and e.data.get('name') == B + '.collect_data_block']
-    wr = [e for e in ctx.calls(Ir, name='.write') if e.func.short == rec.short]
+    wr = [e for e in ctx.calls(Ir, name='.write') if e.owner == rec.short]
     ctx.ob('ORDER', 'each block: header, then collect_data_block, then one data write, in the same loop body', rec,
            len(dat) == 1 and len(wr) == 1 and mkh.seq < dat[0].seq < wr[0].seq and
            [l['id'] for l in mkh.loops] == [l['id'] for l in dat[0].loops] == [l['id'] for l in wr[0].loops],
@@ -367,7 +367,7 @@ def run(ctx):
     if not adv:
         # other accepted realisation: record() assigns PKTIDX per block, affine in the block ordinal
         # (file index * blocks_per_file + block index) with slope samples_per_block, before the header is written
-        alt = [e for e in Ir.events if e.kind == 'store' and e.data.get('target') == 'sub' and e.func.short == rec.short
+        alt = [e for e in Ir.events if e.kind == 'store' and e.data.get('target') == 'sub' and e.owner == rec.short
                and e.data['key'].key == lift('PKTIDX').key and len(e.loops) >= 2]
         ok_alt = False
         detail = {'stores_into_PKTIDX': [e.text() for e in alt]}
